@@ -36,6 +36,19 @@ def reclist(*args, **kwargs):
     return []
 
 
+def recbuild(*args, **kwargs):
+    """a factory that loads an auxiliary config of its own while the outer config is being evaluated (a nested,
+    completely independent build with its own default evaluation context), then records like rec"""
+    from awesomeyaml.builder import Builder
+    from awesomeyaml.config import Config
+    b = Builder()
+    b.add_source("aux: !call:dict {k: !xref v}\nv: [1, 2]\nw: !xref aux\n", raw_yaml=True)
+    inner = Config(b.build())
+    assert inner.w is inner.aux and inner.aux["k"] is inner.v
+    CALLS.append(("vmod.recbuild", args, tuple(sorted(kwargs.items(), key=lambda kv: str(kv[0]))), _who()))
+    return Obj(len(CALLS))
+
+
 _MADE = {}
 
 
